@@ -317,6 +317,7 @@ KINDS = [
 
 
 # number of concrete variants of a message class (the model sees the class only)
+BIG = 100  # variant numbers from here on: members of a message class which need Extended Message
 VARIANTS = {'open': 2, 'openLow': 2, 'openHold1': 2, 'operational': 4, 'notification': 3, 'tooLong': 5, 'badLength': 4, 'unknownType': 5, 'badMarker': 4, 'update': 3}
 
 
@@ -348,6 +349,23 @@ class Remote:
     def bytes_of(self, kind: str, variant: int = 0) -> bytes:
         """`variant` > 0: another member of the same message class (same model event): other
         out-of-range values, peer-chosen text that is not ASCII / not UTF-8."""
+        if variant >= BIG:
+            # a member of the class above 4096 octets: legal once Extended Message (RFC 8654) is negotiated, which
+            # raises the limit of every message but OPEN and KEEPALIVE (scripts with cfg `extended` only)
+            n = [5000, 65535 - 19][(variant - BIG) % 2]
+            if kind == 'notification':
+                return frame(3, bytes([3, 5]) + bytes([0xC0, 99]) + bytes(range(256)) * (n // 256))  # UPDATE error with the offending attribute in Data
+            if kind == 'update':
+                unk = bytes([0xD0, 99]) + struct.pack('!H', n - 200) + bytes([0xAA]) * (n - 200)
+                return frame(2, update_body(ORIGIN + ASPATH + NEXTHOP + unk, NLRI))
+            if kind == 'operational':
+                adv = b'x' * (n - 100)
+                return frame(6, bytes([0, 1]) + struct.pack('!H', 3 + len(adv)) + bytes([0, 1, 1]) + adv)
+            raise RigError(f'no big member of the class {kind}')
+        if kind == 'refresh' and variant == 1:
+            # for the other negotiated family (not a variant of the class: M-Session has one Adj-RIB-Out without
+            # families, so only the flap scenarios of C11 use it)
+            return frame(5, bytes([0, 2, 0, 1]))
         v = VARIANTS.get(kind, 1)
         variant = variant % v if v else 0
         if variant:
@@ -1139,6 +1157,17 @@ def systematic_scripts() -> list[tuple[list[list], dict, str]]:
             for v in range(1, n):
                 for api in ({}, {'api_forward': True}):
                     out.append((prefix + [['recv', c, k, v]] + TAIL, dict(api, routes=1), f'variant{"-fwd" if api else ""}/{stage}/{k}#{v}'))
+    # Extended Message negotiated (what ExaBGP announces by default): messages above 4096 octets are members of
+    # their class like any other - an UPDATE is taken, a NOTIFICATION ends the session WITHOUT a reply (RFC 4271 6.4)
+    for stage in ('openconfirm', 'established-fresh', 'established'):
+        prefix, c = STAGES[stage]
+        for k in ('notification', 'update', 'operational'):
+            for v in (BIG, BIG + 1):
+                for api in ({}, {'api_forward': True}):
+                    out.append((prefix + [['recv', c, k, v]] + TAIL, dict(api, routes=1, extended=True), f'extended{"-fwd" if api else ""}/{stage}/{k}#{v}'))
+        for ev in alphabet(c):
+            if ev[0] != 'recv' or ev[2] in ('keepalive', 'update', 'notification', 'refresh', 'badLength', 'kaLen20'):
+                out.append((prefix + [ev] + TAIL, {'routes': 1, 'extended': True}, f'extended/{stage}/{ev[0]}{"-" + ev[2] if ev[0] == "recv" else ""}'))
     for v in range(1, VARIANTS['open']):
         for k in ('open', 'openLow'):
             base = [['start'], ['connectOk'], ['recv', 1, k, v]]
@@ -1904,7 +1933,7 @@ def run_hold_scenario(hold_time: int, arrivals_ms: list[int], until_ms: int | No
     return out
 
 
-def run_flap_scenario(routes_text: list[str], cut_after_n_messages: int, ops_while_down: list[list], adj_rib_out: bool = True, max_ticks: int = 400, neighbor_opts: dict | None = None, peer_families: list | None = None) -> dict:
+def run_flap_scenario(routes_text: list[str], cut_after_n_messages: int, ops_while_down: list[list], adj_rib_out: bool = True, max_ticks: int = 400, neighbor_opts: dict | None = None, peer_families: list | None = None, refresh: list | None = None) -> dict:
     """Session loss and resynchronisation on the real Peer (C11 end to end).
 
     `routes_text`: configured routes (text grammar, e.g. 'route 10.0.0.0/24 next-hop 192.0.2.1 med 1').
@@ -1966,8 +1995,14 @@ def run_flap_scenario(routes_text: list[str], cut_after_n_messages: int, ops_whi
         for ev in [['start'], ['connectOk'], ['recv', 2, 'open'], ['recv', 2, 'keepalive']]:
             await rig.event(ev)
         quiet = 0
+        asked = False
         for _ in range(max_ticks):
             before = len(rig.rx.get(2, b''))
+            if refresh and not asked and len(data(2)) >= refresh[0]:
+                # `refresh`: [n, variant] — the peer asks for one family again (ROUTE-REFRESH) once it has
+                # received n messages of the resynchronisation
+                asked = True
+                await rig.event(['recv', 2, 'refresh', refresh[1]])
             await rig.event(['tick'])
             quiet = quiet + 1 if len(rig.rx.get(2, b'')) == before else 0
             if quiet >= 3:
